@@ -69,6 +69,9 @@ func call(where string, f func() string) (s string) {
 	return f()
 }
 
+// Call is call for the adapters.
+func Call(where string, f func() string) string { return call(where, f) }
+
 // Fields renders all exported fields of a value by reflection: no methods are called, no
 // addresses or map orders leak into the result.
 func Fields(v interface{}) string {
